@@ -478,6 +478,26 @@ def r_reread(prog, R):
             r.viol(k, f.name, f.loc(el), "read_conn_packets decides to read a TCP connection again without 'count == len' (reached through '%s'): when the peer's FIN is readable in the same pass the second read reports the close, handle_conn_error() destroys the input buffer and the answers already received are discarded and re-requested -- the outcome depends on how the stream was cut into reads" % why)
 
 
+def r_readloss(prog, R):
+    r = R.rule("R-C20-READLOSS", "bytes already received in this pass are handed to the parser before a read error seen by a later read of the same pass tears the "
+               "connection and its input buffer down", floor=1, analysis="reachability: successful append -> teardown inside the read loop's function")
+    f = prog.func("read_conn_packets")
+    fins = [(b, i, c) for b, i, c in f.calls_to("ares_buf_append_finish") if const_val(call_arg(c, 1)) != 0]
+    if not r.require(bool(fins), "read_conn_packets: ares_buf_append_finish(count) not found"):
+        return
+    for b, i, c in fins:
+        k = "fn=read_conn_packets received bytes parsed before a later read error closes the connection"
+        hit = None
+        for (bb, ii) in reach_after(f, b.id, i):
+            e2 = f.blocks[bb].els[ii]
+            if e2["k"] == "call" and e2["e"].get("callee") == "handle_conn_error" and name_of_const(call_arg(e2["e"], 1)) == "ARES_TRUE":
+                hit = e2
+        if hit is not None:
+            r.viol(k, f.name, f.loc(hit), "after ares_buf_append_finish() recorded received bytes the loop can read again, and an error of that further read reaches handle_conn_error(), which destroys conn->in_buf before read_answers() has parsed it: complete answers are discarded and their queries re-sent (today only when a TCP read filled all 65535 bytes and the peer closed right behind it)")
+        else:
+            r.ok(k, f.loc(c["ln"]))
+
+
 def run(prog, R, tier):
     R.assume("ares_buf_tag/rollback/clear/consume implement their documented contracts")
     r_tag(prog, R)
@@ -488,5 +508,6 @@ def run(prog, R, tier):
     # a partial TCP write must leave the socket registered for write events, otherwise the tail of the query is never sent
     C10.r_announce(prog, R, rid="R-C20-WRITEINTEREST")
     r_reread(prog, R)
+    r_readloss(prog, R)
     # a write that fails half way must not leave its length prefix / partial message in the connection's out buffer (framing of what follows)
     C03.r_atomic(prog, R, rid="R-C20-ATOMIC")
